@@ -6,7 +6,7 @@ Fields8  == {"f62", "f64"}
 Fields16 == {"f62", "f64", "f128"}
 
 ValsQ(fields) == [p \in Params |->
-  CASE p = "mw" -> {1, 254} [] p = "aw" -> {0, 1} [] p = "ar" -> {0, 255} [] p = "le" -> {3, 20}
+  CASE p = "mw" -> {1, 253} [] p = "aw" -> {0, 1, 2} [] p = "ar" -> {0, 255} [] p = "le" -> {3, 20}
     [] p = "meta" -> {<<>>, <<1>>, <<1, 0>>} [] p = "mod" -> fields [] p = "nc" -> {1, 256}
     [] p = "ext" -> {1, 2, 3} [] p = "blow" -> {2, 128} [] p = "fold" -> {2, 16} [] p = "rem" -> {0, 255}
     [] p = "grind" -> {0, 32} [] p = "q" -> {1, 255}]
